@@ -4,7 +4,7 @@ import cxx_specs as S
 
 PROPERTY = "C07"
 LEVEL = "proof"
-EXPLANATION = ""
+EXPLANATION = ('Proof of the termination argument: for every register value, immediate and condition shift a CBRANCH cannot be taken three times in a row (arithmetic fact over all 2^64 x 2^32 x 16 cases); compileProgram maintains the last-writer table so that a branch target is the instruction after the last writer of the branch register, a branch marks all registers written, and the loop body of a branch contains neither a writer of its register nor another branch (loop contract over all program lengths).')
 TRUSTED = ["suites/common/spec_isa.h (oracle for the last-writer rule and the branch constant, doc/specs.md 5.4.2)",
            "C++ -> C extraction rules of rxv/cxx2c.py"]
 ASSUMPTIONS = []
